@@ -286,6 +286,14 @@ def run(ctx):
                  "as_dict()), every later query on the object keeps returning the values "
                  "read before, instead of raising NoSuchProcess")
 
+    # ------------------------------------------------------------------- R9
+    ctx.rule("C03.R9", "a public Process method does not absorb NoSuchProcess raised by a "
+             "query on ITS OWN process: a try whose body queries self.<method>() and "
+             "whose clause covers NoSuchProcess (NoSuchProcess / Error / Exception / "
+             "bare) without re-raising is one of the confirmed instances, identified by "
+             "(classes caught, queries made), not by position or name", floor=3)
+    _r9(ctx, repo)
+
     ctx.assume("fault model as stated: errno failures (ENOENT/ESRCH/EACCES/EPERM) at "
                "any per-process OS access, and zombie state; malformed/truncated "
                "kernel text (parse errors) and system-wide file failures are outside it")
@@ -561,6 +569,121 @@ ACCESS = {"open_binary", "open_text", "open", "readlink", "os.readlink", "bcat",
           "os.stat", "os.lstat", "os.listdir", "os.scandir"}
 
 
+# (classes caught, self-queries in the try body) -> why absorbing is right there
+R9_CONFIRMED = {
+    (("NoSuchProcess",), ("name", "status")):
+        "__str__: describes a gone process as terminated instead of raising",
+    (("Error",), ("status",)):
+        "__eq__: zombie test before comparing identities; any failure -> not equal path",
+    (("NoSuchProcess", "ZombieProcess"), ("create_time",)):
+        "children(): the caller's create_time is read inside the per-child try; "
+        "C05.R5 decides what is skipped",
+}
+
+
+def _r9(ctx, repo):
+    covers = {"NoSuchProcess", "Error", "Exception", "BaseException"}
+    queries = None
+    found = 0
+    procs = [f for f in repo.all_funcs("psutil") if f.cls == "Process" and f.parent is None]
+    queries = {f.name for f in procs if not f.name.startswith("_")}
+    for f in procs:
+        for tr in [n for n in ast.walk(f.node) if isinstance(n, ast.Try)]:
+            q = sorted({c.func.attr for b in tr.body for c in ast.walk(b)
+                        if isinstance(c, ast.Call) and isinstance(c.func, ast.Attribute)
+                        and isinstance(c.func.value, ast.Name) and c.func.value.id == "self"
+                        and c.func.attr in queries})
+            if not q:
+                continue
+            for h in tr.handlers:
+                hn = handler_names(h)
+                if hn is not None and not (set(hn) & covers):
+                    continue
+                if h.body and isinstance(h.body[-1], ast.Raise) and h.body[-1].exc is None \
+                        and not any(isinstance(x, (ast.If, ast.Return, ast.Continue, ast.Break))
+                                    for b in h.body for x in ast.walk(b)):
+                    continue                    # always re-raised
+                if any(isinstance(x, ast.Raise) for x in h.body[-1:]):
+                    continue                    # replaced by another error, not absorbed
+                sig = (tuple(sorted(hn)) if hn is not None else ("<bare>",), tuple(q))
+                key = f"absorbs:{'/'.join(sig[0])}:{','.join(sig[1])}"
+                if sig in R9_CONFIRMED:
+                    found += 1
+                    ctx.ok("C03.R9", key, sample=f"{f.qual}: {R9_CONFIRMED[sig]}")
+                else:
+                    ctx.fail("C03.R9", key, f.file, h.lineno, f.qual,
+                             f"`except {'/'.join(sig[0])}` around self.{'(), self.'.join(q)}() "
+                             f"absorbs NoSuchProcess: if the process vanishes at that query "
+                             f"the method answers (or raises a stale error) instead of "
+                             f"raising NoSuchProcess")
+    ctx.require(found >= 3, f"only {found} of the confirmed absorbing clauses found")
+
+
+def _handler_exits(h, eno):
+    """How control can leave except-clause h when the caught OSError carries errno
+    `eno`: subset of {"raise", "fall", "continue", "break", "return"}.  Tests of
+    `<bound name>.errno` against errno constants are decided; any other test is
+    explored both ways.  A `raise` of another exception (raise X(...)) is not a
+    re-raise of the caught one, except `raise <bound name>`."""
+    name = h.name
+
+    def econst(e):
+        d = dotted(e) or ""
+        return d.split(".")[-1] if d.startswith("errno.") or d.isupper() else None
+
+    def decide(test):
+        if isinstance(test, ast.UnaryOp) and isinstance(test.op, ast.Not):
+            r = decide(test.operand)
+            return None if r is None else not r
+        if isinstance(test, ast.BoolOp):
+            rs = [decide(v) for v in test.values]
+            if isinstance(test.op, ast.Or):
+                return True if True in rs else (None if None in rs else False)
+            return False if False in rs else (None if None in rs else True)
+        if isinstance(test, ast.Compare) and len(test.ops) == 1 and name \
+                and dotted(test.left) == f"{name}.errno":
+            op, rhs = test.ops[0], test.comparators[0]
+            if isinstance(op, (ast.Eq, ast.NotEq)):
+                c = econst(rhs)
+                if c is None:
+                    return None
+                return (c == eno) == isinstance(op, ast.Eq)
+            if isinstance(op, (ast.In, ast.NotIn)) and isinstance(rhs, (ast.Tuple, ast.Set, ast.List)):
+                cs = [econst(x) for x in rhs.elts]
+                if None in cs:
+                    return None
+                return (eno in cs) == isinstance(op, ast.In)
+        return None
+
+    def run(stmts):
+        for st in stmts:
+            if isinstance(st, ast.Raise):
+                if st.exc is None or (name and dotted(st.exc) == name):
+                    return {"raise"}
+                return {"other"}
+            if isinstance(st, ast.Continue):
+                return {"continue"}
+            if isinstance(st, ast.Break):
+                return {"break"}
+            if isinstance(st, ast.Return):
+                return {"return"}
+            if isinstance(st, ast.If):
+                d = decide(st.test)
+                outs = set()
+                if d is not False:
+                    outs |= run(st.body)
+                if d is not True:
+                    outs |= run(st.orelse)
+                if "fall" not in outs:
+                    return outs
+                rest = outs - {"fall"}
+                continue_with = rest
+                tail = run(stmts[stmts.index(st) + 1:])
+                return continue_with | tail
+        return {"fall"}
+    return run(h.body)
+
+
 def _r8(ctx, repo, A, pm, rule="C03.R8", only=None, floor=4):
     from ..core.astutil import deref, enclosing_trys, handler_catches
 
@@ -639,7 +762,24 @@ def _r8(ctx, repo, A, pm, rule="C03.R8", only=None, floor=4):
             trys = enclosing_trys(f.node, c)
             ok = any(handler_catches(h, ["FileNotFoundError"]) for t in trys for h in t.handlers) \
                 and any(handler_catches(h, ["ProcessLookupError"]) for t in trys for h in t.handlers)
+            # the clause that actually receives the error (first match, innermost
+            # try first) must not hand it on: `except OSError as e: if e.errno in
+            # (...): continue; raise` is evaluated for that errno
+            rethrown = None
             if ok:
+                for cls, eno in (("FileNotFoundError", "ENOENT"), ("ProcessLookupError", "ESRCH")):
+                    h = next((h for t in trys for h in t.handlers
+                              if handler_catches(h, [cls])), None)
+                    if h is not None and "raise" in _handler_exits(h, eno):
+                        rethrown = (cls, eno, h.lineno)
+                        break
+            if rethrown:
+                ctx.fail(rule, key, f.file, rethrown[2], f.qual,
+                         f"{what}: {rethrown[0]} ({rethrown[1]}) reaches the handler at line "
+                         f"{rethrown[2]}, which re-raises it: a descriptor closed / thread "
+                         f"ended while the process is alive is reported as the process "
+                         f"being gone")
+            elif ok:
                 ctx.ok(rule, key, sample=f"{f.qual}: {what} under except (ENOENT, ESRCH)")
             else:
                 ctx.fail(rule, key, f.file, getattr(c, "lineno", f.node.lineno), f.qual,
